@@ -193,6 +193,18 @@ def read_cgsmiles(pattern):
             else:
                 break
 
+        # a multi digit ring marker can be the very last thing of the pattern
+        # (fragment strings come without the closing brace)
+        if multi_ring:
+            ring_marker = int(ring_marker[1:])
+            if ring_marker in cycle:
+                cycle_edges.append((current,
+                                    cycle[ring_marker][0],
+                                    cycle[ring_marker][1]))
+                del cycle[ring_marker]
+            else:
+                cycle[ring_marker] = [current, ring_bond_order]
+
         # check if there is a bond-order following the node
         if stop < len(pattern) and pattern[stop+rdx-1] in '- + . = # $':
             bond_order = symbol_to_order[pattern[stop+rdx-1]]
